@@ -884,7 +884,7 @@ func (p *Parser) followStmts(left string, lpos Pos, stops ...string) ([]*Stmt, [
 			return nil, last // allow an empty list, which may still hold comments
 		}
 		if p.recoverError() {
-			return []*Stmt{{Position: recoveredPos}}, nil
+			return []*Stmt{{Position: recoveredPos}}, last
 		}
 		p.followErr(lpos, left, noQuote("a statement list"))
 	}
